@@ -386,6 +386,7 @@ Section Scan.
   Qed.
 
   (* ------------------------------------------------------------------ ex_loc *)
+  Section Loc.
   Hypothesis Hlit : nth_error m G_exloc = Some gb_exloc.
   Hypothesis Hg : G_exloc <> bd.
 
@@ -502,6 +503,243 @@ Section Scan.
     rewrite exec_seq, E2.
     rewrite exec_seq, exec_expr, (eval_term _ _ _ w3 H3 C2), exec_return. xcbn. eexists; split; reflexivity.
   Qed.
+  End Loc.
+
+  (* ------------------------------------------------------------------ ex_arg *)
+  (* destruct the byte comparisons of the condition under evaluation, one at a time *)
+  Ltac cond_tac2 Hc :=
+    xs; repeat (rewrite (load_rd _ _ _ _ Hc) by lia; xs); unfold sx; chars H256;
+    repeat (match goal with
+            | |- context [if ?b then _ else _] =>
+                match b with context [(?x =? ?y)%N] => destruct (x =? y)%N eqn:? end
+            end; xs; repeat (rewrite (load_rd _ _ _ _ Hc) by lia; xs); chars H256);
+    try reflexivity.
+
+  Definition C_ne (k : Z) : expr := EBin ONe I32 (ECast I32 (ELoad (Some I8) (ELocal 0))) (EConst k).
+  Definition C_nz : expr := ECast I32 (ELoad (Some I8) (ELocal 0)).
+  Definition arg_nlcond : expr := EAndAlso C_nz (C_ne 10).
+  Definition arg_tailcond : expr := EAndAlso (EAndAlso (EAndAlso C_nz (C_ne 10)) (C_ne 124)) (C_ne 34).
+  Lemma eval_arg_nlcond rest i w c : CapDefs.rd s i = CapDefs.Ok c ->
+    eval call arg_nlcond (ST i w rest) = Ok (VInt (b2z (negb ((c =? 0)%N || CapDefs.stop_nl c))), ST i w rest).
+  Proof.
+    intros Hc. pose proof (rd_lt256 i c Hc). unfold arg_nlcond, C_nz, C_ne, CapDefs.stop_nl. cond_tac2 Hc.
+  Qed.
+  Lemma eval_arg_tailcond rest i w c : CapDefs.rd s i = CapDefs.Ok c ->
+    eval call arg_tailcond (ST i w rest) = Ok (VInt (b2z (negb ((c =? 0)%N || CapDefs.stop_tail c))), ST i w rest).
+  Proof.
+    intros Hc. pose proof (rd_lt256 i c Hc). unfold arg_tailcond, C_nz, C_ne, CapDefs.stop_tail. cond_tac2 Hc.
+  Qed.
+  Lemma eval_arg_nlcond_skip rest mm' w i c : mm' = MM w -> CapDefs.rd s i = CapDefs.Ok c ->
+    eval call arg_nlcond (mkst (VPtr bs (Z.of_nat i) :: rest) mm')
+    = Ok (VInt (b2z (CapDefs.not_nl c)), mkst (VPtr bs (Z.of_nat i) :: rest) mm').
+  Proof.
+    intros -> Hc. pose proof (rd_lt256 i c Hc). unfold arg_nlcond, C_nz, C_ne, CapDefs.not_nl. cond_tac2 Hc.
+  Qed.
+
+  Definition arg_subcond : expr := EAndAlso (EAndAlso C_nz (C_ne 10)) (EBin OGt I32 (ELocal 6) (EConst 0)).
+  Definition arg_subbody : stmt :=
+    SSeq (SIf (EBin OEq I32 (ECast I32 (ELoad (Some I8) (ELocal 0))) (ELocal 5)) (SExpr (EIncLocal true 6 (Some I32) (-1))) SSkip)
+         (SSeq S_esc (SExpr E_copy1)).
+  Lemma ltb0_nat n : (0 <? Z.of_nat n) = negb (n =? 0)%nat.
+  Proof. destruct (Z.ltb_spec 0 (Z.of_nat n)), (Nat.eqb_spec n 0); try reflexivity; lia. Qed.
+
+  Lemma arg_sub_ok cd pe v0 v1 : (cd < 256)%N -> forall fm i w cnt i' w' fuel,
+    CapDefs.arg_sub fm s cd i w cnt = CapDefs.Ok (i', w') -> CapDefs.wcap w = length blk ->
+    (cnt <= 2)%nat -> (fm <= fuel)%nat ->
+    exists cnt', exec call fuel (SWhile arg_subcond arg_subbody) (ST i w [pe; v0; v1; VInt (sx cd); VInt (Z.of_nat cnt)])
+                 = ONormal (ST i' w' [pe; v0; v1; VInt (sx cd); VInt (Z.of_nat cnt')]) /\
+                 CapDefs.wcap w' = length blk.
+  Proof.
+    intros Hcd. induction fm as [|fm IH]; intros i w cnt i' w' fuel H Hcap Hcnt Hf; [discriminate|].
+    destruct fuel as [|fuel]; [lia|]. cbn [CapDefs.arg_sub] in H.
+    destruct (CapDefs.rd s i) as [c| | |] eqn:Hc; cbn [CapDefs.bind] in H; try discriminate.
+    pose proof (rd_lt256 i c Hc) as Hc256.
+    assert (Econd : eval call arg_subcond (ST i w [pe; v0; v1; VInt (sx cd); VInt (Z.of_nat cnt)])
+                    = Ok (VInt (b2z (negb ((c =? 0)%N || (c =? 10)%N || (cnt =? 0)%nat))), ST i w [pe; v0; v1; VInt (sx cd); VInt (Z.of_nat cnt)])).
+    { unfold arg_subcond, C_nz, C_ne. cond_tac2 Hc. rewrite ltb0_nat. destruct (cnt =? 0)%nat; reflexivity. }
+    rewrite exec_while, Econd. xcbn. rewrite nb2z.
+    destruct ((c =? 0)%N || (c =? 10)%N || (cnt =? 0)%nat) eqn:Estop; cbn [negb].
+    { injection H as <- <-. exists cnt. split; [reflexivity|exact Hcap]. }
+    assert (cnt <> 0)%nat as Hc0 by (destruct (Nat.eqb_spec cnt 0); [subst; rewrite !orb_true_r in Estop; discriminate|assumption]).
+    destruct (CapDefs.esc s i w) as [[i1 w1]| | |] eqn:He; cbn [CapDefs.bind fst snd] in H; try discriminate.
+    destruct (CapDefs.copy1 s i1 w1) as [[i2 w2]| | |] eqn:H1; cbn [CapDefs.bind fst snd] in H; try discriminate.
+    set (cnt1 := if (c =? cd)%N then Nat.pred cnt else cnt) in *.
+    unfold arg_subbody at 1. rewrite exec_seq.
+    assert (E0 : exec call (S fuel) (SIf (EBin OEq I32 (ECast I32 (ELoad (Some I8) (ELocal 0))) (ELocal 5)) (SExpr (EIncLocal true 6 (Some I32) (-1))) SSkip)
+                   (ST i w [pe; v0; v1; VInt (sx cd); VInt (Z.of_nat cnt)])
+                 = ONormal (ST i w [pe; v0; v1; VInt (sx cd); VInt (Z.of_nat cnt1)])).
+    { rewrite exec_if. xs. rewrite (load_rd w i c _ Hc eq_refl). xs. unfold sx. rewrite (sx_eqb_sx c cd Hc256 Hcd).
+      unfold cnt1. destruct (c =? cd)%N; xs; [|reflexivity].
+      rewrite (chk_I32 (Z.of_nat cnt + -1)) by lia. xs.
+      replace (Z.of_nat cnt + -1) with (Z.of_nat (Nat.pred cnt)) by lia. reflexivity. }
+    rewrite E0.
+    destruct (exec_esc (S fuel) i w [pe; v0; v1; VInt (sx cd); VInt (Z.of_nat cnt1)] i1 w1 He Hcap) as [E1 C1].
+    destruct (eval_copy1 i1 w1 [pe; v0; v1; VInt (sx cd); VInt (Z.of_nat cnt1)] i2 w2 H1 C1) as [E2 C2].
+    rewrite exec_seq, E1, exec_expr, E2.
+    apply (IH i2 w2 cnt1 i' w' fuel H C2); [unfold cnt1; destruct (c =? cd)%N; lia|lia].
+  Qed.
+
+  Definition L_is (x : nat) (k : Z) : expr := EBin OEq I32 (ELocal x) (EConst k).
+  Definition L_ne (x : nat) (k : Z) : expr := EBin ONe I32 (ELocal x) (EConst k).
+  Definition arg_c1 : expr :=
+    EOrElse (EOrElse (EOrElse (L_is 3 33) (L_is 3 103)) (L_is 3 118))
+            (EAndAlso (EAndAlso (EOrElse (L_is 3 114) (L_is 3 119)) (ELNot (ELocal 4)))
+                      (EBin OEq I32 (ECast I32 (ELoad (Some I8) (EPtrAdd 1 (ELocal 0) (EConst 0)))) (EConst 33))).
+  Definition arg_c2 : expr := EOrElse (EOrElse (EAndAlso (L_is 3 115) (L_ne 4 101)) (L_is 3 38)) (L_is 3 126).
+  Definition arg_c3 : expr :=
+    EAndAlso (EAndAlso (EAndAlso (EAndAlso (ELocal 5) (L_ne 5 10)) (L_ne 5 124)) (L_ne 5 92)) (L_ne 5 34).
+
+  Section Arg.
+    Variables (pe : val) (c0 c1 : N).
+    Hypothesis Hc0 : (c0 < 256)%N.
+    Hypothesis Hc1 : (c1 < 256)%N.
+    Local Notation AL x5 x6 := [pe; VInt (sx c0); VInt (sx c1); x5; x6].
+
+    Lemma eval_arg_c1 i w x5 x6 c : CapDefs.rd s i = CapDefs.Ok c ->
+      eval call arg_c1 (ST i w (AL x5 x6))
+      = Ok (VInt (b2z ((c0 =? 33)%N || (c0 =? 103)%N || (c0 =? 118)%N ||
+                       (((c0 =? 114)%N || (c0 =? 119)%N) && (c1 =? 0)%N && (c =? 33)%N))), ST i w (AL x5 x6)).
+    Proof.
+      intros Hc. pose proof (rd_lt256 i c Hc). unfold arg_c1, L_is. cond_tac2 Hc.
+    Qed.
+    Lemma eval_arg_c2 i w x5 x6 :
+      eval call arg_c2 (ST i w (AL x5 x6))
+      = Ok (VInt (b2z (((c0 =? 115)%N && negb (c1 =? 101)%N) || (c0 =? 38)%N || (c0 =? 126)%N)), ST i w (AL x5 x6)).
+    Proof.
+      unfold arg_c2, L_is, L_ne. xs. unfold sx. chars H256.
+      repeat (match goal with
+              | |- context [if ?b then _ else _] =>
+                  match b with context [(?x =? ?y)%N] => destruct (x =? y)%N eqn:? end
+              end; xs; chars H256); reflexivity.
+    Qed.
+    Lemma eval_arg_c3 i w c x6 : (c < 256)%N ->
+      eval call arg_c3 (ST i w (AL (VInt (sx c)) x6))
+      = Ok (VInt (b2z (negb (c =? 0)%N && negb (c =? 10)%N && negb (c =? 124)%N && negb (c =? 92)%N && negb (c =? 34)%N)),
+            ST i w (AL (VInt (sx c)) x6)).
+    Proof.
+      intro Hc. unfold arg_c3, L_ne. xs. unfold sx. chars H256.
+      repeat (match goal with
+              | |- context [if ?b then _ else _] =>
+                  match b with context [(?x =? ?y)%N] => destruct (x =? y)%N eqn:? end
+              end; xs; chars H256); reflexivity.
+    Qed.
+
+    Definition arg_mid : stmt :=
+      SIf arg_c1 (SWhile arg_nlcond (SSeq S_esc (SExpr E_copy1)))
+     (SIf arg_c2 (SSeq (SExpr (ESetLocal 5 (ECast I32 (ELoad (Some I8) (ELocal 0)))))
+                 (SSeq (SExpr (ESetLocal 6 (EConst 2)))
+                       (SIf arg_c3 (SSeq (SExpr E_copy1) (SWhile arg_subcond arg_subbody)) SSkip))) SSkip).
+
+    Lemma arg_mid_ok fuel i w x5 x6 c i2 w2 : CapDefs.rd s i = CapDefs.Ok c ->
+      (if (c0 =? 33)%N || (c0 =? 103)%N || (c0 =? 118)%N || (((c0 =? 114)%N || (c0 =? 119)%N) && (c1 =? 0)%N && (c =? 33)%N)
+       then CapDefs.copy_until (S (length s)) CapDefs.stop_nl s i w
+       else if ((c0 =? 115)%N && negb (c1 =? 101)%N) || (c0 =? 38)%N || (c0 =? 126)%N
+       then (if negb (c =? 0)%N && negb (c =? 10)%N && negb (c =? 124)%N && negb (c =? 92)%N && negb (c =? 34)%N
+             then CapDefs.bind (CapDefs.copy1 s i w) (fun iw0 => CapDefs.arg_sub (S (length s)) s c (fst iw0) (snd iw0) 2)
+             else CapDefs.Ok (i, w))
+       else CapDefs.Ok (i, w)) = CapDefs.Ok (i2, w2) ->
+      CapDefs.wcap w = length blk -> (S (length s) <= fuel)%nat ->
+      exists y5 y6, exec call fuel arg_mid (ST i w (AL x5 x6)) = ONormal (ST i2 w2 (AL y5 y6)) /\
+                    CapDefs.wcap w2 = length blk.
+    Proof.
+      intros Hc H Hcap Hf. pose proof (rd_lt256 i c Hc) as Hc256.
+      unfold arg_mid. rewrite exec_if, (eval_arg_c1 i w x5 x6 c Hc). xcbn. rewrite nb2z.
+      match type of H with (if ?b then _ else _) = _ => destruct b end.
+      { destruct (copy_loop_ok arg_nlcond CapDefs.stop_nl (AL x5 x6) (eval_arg_nlcond _) _ i w i2 w2 fuel H Hcap Hf) as [E C].
+        rewrite E. exists x5, x6. split; [reflexivity|exact C]. }
+      rewrite exec_if, (eval_arg_c2 i w x5 x6). xcbn. rewrite nb2z.
+      match type of H with (if ?b then _ else _) = _ => destruct b end.
+      2:{ injection H as <- <-. rewrite exec_skip. exists x5, x6. split; [reflexivity|exact Hcap]. }
+      rewrite exec_seq, exec_expr. xcbn. rewrite (load_rd w i c _ Hc eq_refl). xcbn.
+      rewrite exec_seq, exec_expr. xcbn.
+      change (VInt (wrap I32 (wrap I8 (Z.of_N c)))) with (VInt (sx c)).
+      rewrite exec_if, (eval_arg_c3 i w c (VInt 2) Hc256). xcbn. rewrite nb2z.
+      match type of H with (if ?b then _ else _) = _ => destruct b end.
+      2:{ injection H as <- <-. rewrite exec_skip. exists (VInt (sx c)), (VInt 2). split; [reflexivity|exact Hcap]. }
+      destruct (CapDefs.copy1 s i w) as [[i1 w1]| | |] eqn:H1; cbn [CapDefs.bind fst snd] in H; try discriminate.
+      destruct (eval_copy1 i w (AL (VInt (sx c)) (VInt 2)) i1 w1 H1 Hcap) as [E1 C1].
+      rewrite exec_seq, exec_expr, E1. change (VInt 2) with (VInt (Z.of_nat 2)).
+      destruct (arg_sub_ok c pe (VInt (sx c0)) (VInt (sx c1)) Hc256 _ i1 w1 2%nat i2 w2 fuel H C1 ltac:(lia) Hf) as (cnt' & E2 & C2).
+      rewrite E2. eexists _, _. split; [reflexivity|exact C2].
+    Qed.
+
+    Definition arg_rest : stmt :=
+      SSeq (SWhile C_blank S_inc) (SSeq arg_mid
+     (SSeq (SWhile arg_tailcond (SSeq S_esc (SExpr E_copy1)))
+     (SSeq (SIf (C_is 34) (SWhile arg_nlcond S_inc) SSkip)
+     (SSeq (SIf (EOrElse (C_is 10) (C_is 124)) S_inc SSkip)
+     (SSeq (SExpr E_term) (SReturn (Some (ELocal 0)))))))).
+
+    Lemma arg_rest_ok fuel i w0 x5 x6 i' w' : CapDefs.ex_arg s i w0 c0 c1 = CapDefs.Ok (i', w') ->
+      CapDefs.wcap w0 = length blk -> (S (length s) <= fuel)%nat ->
+      exists st, exec call fuel arg_rest (ST i w0 (AL x5 x6)) = OReturn (VPtr bs (Z.of_nat i')) st /\ memm st = MM w'.
+    Proof.
+      intros H Hcap Hf. unfold CapDefs.ex_arg in H. cbv zeta in H.
+      destruct (CapDefs.skip_while _ _ s i) as [i1| | |] eqn:H1; cbn [CapDefs.bind] in H; try discriminate.
+      destruct (CapDefs.rd s i1) as [c| | |] eqn:Hc; cbn [CapDefs.bind] in H; try discriminate.
+      match type of H with CapDefs.bind ?e _ = _ => destruct e as [[i2 w2]| | |] eqn:H2 end; cbn [CapDefs.bind fst snd] in H; try discriminate.
+      destruct (CapDefs.copy_until _ _ s i2 w2) as [[i3 w3]| | |] eqn:H3; cbn [CapDefs.bind fst snd] in H; try discriminate.
+      destruct (CapDefs.rd s i3) as [c2| | |] eqn:Hc2; cbn [CapDefs.bind] in H; try discriminate.
+      match type of H with CapDefs.bind ?e _ = _ => destruct e as [i4| | |] eqn:H4 end; cbn [CapDefs.bind] in H; try discriminate.
+      destruct (CapDefs.rd s i4) as [c3| | |] eqn:Hc3; cbn [CapDefs.bind] in H; try discriminate.
+      destruct (CapDefs.wr w3 0%N) as [w4| | |] eqn:H5; cbn [CapDefs.bind] in H; try discriminate. injection H as <- <-.
+      unfold arg_rest.
+      rewrite exec_seq, (skip_loop_ok C_blank CapDefs.is_blank _ _ (fun i c => eval_C_blank _ _ w0 i c eq_refl) _ i i1 fuel H1 Hf).
+      destruct (arg_mid_ok fuel i1 w0 x5 x6 c i2 w2 Hc H2 Hcap Hf) as (y5 & y6 & E2 & C2).
+      rewrite exec_seq, E2.
+      destruct (copy_loop_ok arg_tailcond CapDefs.stop_tail (AL y5 y6) (eval_arg_tailcond _) _ i2 w2 i3 w3 fuel H3 C2 Hf) as [E3 C3].
+      rewrite exec_seq, E3.
+      (* the comment *)
+      assert (E4 : exec call fuel (SIf (C_is 34) (SWhile arg_nlcond S_inc) SSkip) (ST i3 w3 (AL y5 y6)) = ONormal (ST i4 w3 (AL y5 y6))).
+      { pose proof (rd_lt256 i3 c2 Hc2). rewrite exec_if. unfold C_is. cond_tac Hc2.
+        - apply (skip_loop_ok arg_nlcond CapDefs.not_nl _ _ (fun i c => eval_arg_nlcond_skip _ _ w3 i c eq_refl) _ i3 i4 fuel H4 Hf).
+        - injection H4 as <-. reflexivity. }
+      rewrite exec_seq, E4.
+      (* the separator *)
+      assert (E5 : exec call fuel (SIf (EOrElse (C_is 10) (C_is 124)) S_inc SSkip) (ST i4 w3 (AL y5 y6))
+                   = ONormal (ST (if (c3 =? 10)%N || (c3 =? 124)%N then S i4 else i4) w3 (AL y5 y6))).
+      { pose proof (rd_lt256 i4 c3 Hc3). rewrite exec_if. unfold C_is, S_inc. cond_tac Hc3; cbn [orb];
+          replace (Z.of_nat i4 + 1) with (Z.of_nat (S i4)) by lia; reflexivity. }
+      rewrite exec_seq, E5.
+      rewrite exec_seq, exec_expr, (eval_term _ _ _ w4 H5 C3), exec_return. xcbn. eexists; split; reflexivity.
+    Qed.
+  End Arg.
+
+  (* the command name handed to ex_arg: a C string in a third block *)
+  Section ArgTop.
+  Variables (be : nat) (e : bytes).
+  Hypothesis He : str_at m be e.
+  Hypothesis He256 : bytes_lt256 e.
+  Hypothesis Hbe : be <> bd.
+  Lemma load_e w o z : z = Z.of_nat o -> (o <= length e)%nat -> load (MM w) be z = Ok (VInt (Z.of_N (nthb e o))).
+  Proof.
+    intros -> Ho. unfold MM. rewrite load_upd_other_block by (auto using bd_lt). apply (load_str m be e _ o He eq_refl Ho).
+  Qed.
+
+  Lemma ex_arg_shape : fn_body cf_ex_arg =
+    SSeq (SExpr (ESetLocal 3 (ECast I32 (ELoad (Some I8) (EPtrAdd 1 (ELocal 2) (EConst 0))))))
+   (SSeq (SExpr (ESetLocal 4 (ECond (ELocal 3) (ECast I32 (ELoad (Some I8) (EPtrAdd 1 (ELocal 2) (EConst 1)))) (EConst 0))))
+         arg_rest).
+  Proof. reflexivity. Qed.
+
+  Lemma ex_arg_body_ok fuel i w0 i' w' :
+    CapDefs.ex_arg s i w0 (CapDefs.ch0 e) (CapDefs.ch1 e) = CapDefs.Ok (i', w') ->
+    CapDefs.wcap w0 = length blk -> (S (length s) <= fuel)%nat ->
+    exists st, exec call fuel (fn_body cf_ex_arg) (ST i w0 [VPtr be 0; VUndef; VUndef; VUndef; VUndef])
+               = OReturn (VPtr bs (Z.of_nat i')) st /\ memm st = MM w'.
+  Proof.
+    intros H Hcap Hf. rewrite ex_arg_shape. unfold CapDefs.ch1, CapDefs.ch0 in H.
+    pose proof (nthb_lt256 e 0 He256) as H0. pose proof (nthb_lt256 e 1 He256) as H1.
+    rewrite exec_seq, exec_expr. xcbn. rewrite (load_e w0 0%nat) by (reflexivity || lia). xcbn.
+    rewrite exec_seq, exec_expr. xcbn. chars H256.
+    destruct (nthb e 0 =? 0)%N eqn:E0; cbn [negb]; xcbn.
+    - apply (arg_rest_ok (VPtr be 0) (nthb e 0) 0%N H0 ltac:(reflexivity) fuel i w0 VUndef VUndef i' w' H Hcap Hf).
+    - assert (1 <= length e)%nat.
+      { destruct e as [|x r]; [discriminate E0|cbn; lia]. }
+      rewrite (load_e w0 1%nat) by (reflexivity || lia). xcbn.
+      apply (arg_rest_ok (VPtr be 0) (nthb e 0) (nthb e 1) H0 H1 fuel i w0 VUndef VUndef i' w' H Hcap Hf).
+  Qed.
+  End ArgTop.
 End Scan.
 
 (* ------------------------------------------------------------------ the calls *)
@@ -537,6 +775,23 @@ Proof.
   destruct (ex_loc_body_ok m bs bd s blk Hs H256 Hd Hne (callf cprog fuel d) Hlit Hg fuel i _ i' w VUndef H (newbuf_cap _) Hf) as (st & E & M).
   rewrite (MM_new m bd blk Hd) in E. rewrite callf_S. cbn [nth_error cprog F_ex_loc].
   change (fn_nparams cf_ex_loc) with 2%nat. change (fn_nlocals cf_ex_loc) with 3%nat.
+  cbn [length Nat.eqb Nat.sub repeat app]. cbn [CapDefs.wlen CapDefs.newbuf fst length Z.of_nat] in E.
+  rewrite E, M. reflexivity.
+Qed.
+
+(* ex_arg(src, dst, excmd): c0, c1 are the first bytes of the command name (CapDefs.ch0, ch1) *)
+Theorem tr_ex_arg m bs bd be s e blk i i' w d fuel :
+  str_at m bs s -> bytes_lt256 s -> nth_error m bd = Some blk -> bs <> bd ->
+  str_at m be e -> bytes_lt256 e -> be <> bd ->
+  CapDefs.ex_arg s i (CapDefs.newbuf (length blk)) (CapDefs.ch0 e) (CapDefs.ch1 e) = CapDefs.Ok (i', w) ->
+  (S (length s) <= fuel)%nat ->
+  callf cprog fuel (S d) F_ex_arg [VPtr bs (Z.of_nat i); VPtr bd 0; VPtr be 0] m
+  = Ok (VPtr bs (Z.of_nat i'), upd m bd (dblock w blk)).
+Proof.
+  intros Hs H256 Hd Hne He He256 Hbe H Hf.
+  destruct (ex_arg_body_ok m bs bd s blk Hs H256 Hd Hne (callf cprog fuel d) be e He He256 Hbe fuel i _ i' w H (newbuf_cap _) Hf) as (st & E & M).
+  rewrite (MM_new m bd blk Hd) in E. rewrite callf_S. cbn [nth_error cprog F_ex_arg].
+  change (fn_nparams cf_ex_arg) with 3%nat. change (fn_nlocals cf_ex_arg) with 7%nat.
   cbn [length Nat.eqb Nat.sub repeat app]. cbn [CapDefs.wlen CapDefs.newbuf fst length Z.of_nat] in E.
   rewrite E, M. reflexivity.
 Qed.
